@@ -220,6 +220,59 @@ func c16LoopFacts(l *leanFile, name string, fd *ast.FuncDecl) {
 		return true
 	})
 	l.p("def %sStartPacket : String := %q", name, start)
+
+	// the reader goroutine's retry branch after a failed RecvSidecarPkt: the
+	// statements after the back-off (the re-initialisation of the mailbox must
+	// not be able to end the reader)
+	var retry []string
+	found := false
+	ast.Inspect(fd.Body, func(n ast.Node) bool {
+		cc, ok := n.(*ast.CommClause)
+		if !ok || cc.Comm == nil {
+			return true
+		}
+		es, ok := cc.Comm.(*ast.ExprStmt)
+		if !ok || !strings.Contains(exprString(es.X), "retryTimer.backOff") {
+			return true
+		}
+		found = true
+		for _, st := range cc.Body {
+			switch x := st.(type) {
+			case *ast.AssignStmt:
+				lhs := []string{}
+				for _, e := range x.Lhs {
+					lhs = append(lhs, exprString(e))
+				}
+				rhs := ""
+				if len(x.Rhs) == 1 {
+					if c, ok := x.Rhs[0].(*ast.CallExpr); ok {
+						rhs = strings.TrimPrefix(exprString(c.Fun), "a.cfg.")
+					}
+				}
+				retry = append(retry, strings.Join(lhs, ",")+" "+x.Tok.String()+" "+rhs)
+			case *ast.BranchStmt:
+				retry = append(retry, x.Tok.String())
+			case *ast.ReturnStmt:
+				retry = append(retry, "return")
+			case *ast.IfStmt:
+				kind := "if"
+				ast.Inspect(x, func(m ast.Node) bool {
+					if _, ok := m.(*ast.ReturnStmt); ok {
+						kind = "if-return"
+					}
+					return true
+				})
+				retry = append(retry, kind)
+			default:
+				retry = append(retry, "stmt")
+			}
+		}
+		return true
+	})
+	if !found {
+		fail("C16: %s: retry branch of the mailbox reader not found", name)
+	}
+	l.p("def %sReaderRetry : List String := %s", name, leanStrList(retry))
 }
 
 func genC16() {
